@@ -11,25 +11,25 @@ LC == LC_
 ASSUME LDef == Eq(L, Add(Pow2(252), LC))
 
 \* x == pos - neg (mod L), with pos, neg sums of few numbers below 2^252
+\* (helper operators instead of LET: see the evaluation note in BigNat)
 RECURSIVE FoldL(_)
+FoldL1(lo, pr) == <<Add(lo, pr[2]), pr[1]>>
 FoldL(x) ==
     IF BitLen(x) <= 252 THEN <<Norm(x), Zero>>
-    ELSE LET lo == LowBits(x, 252)
-             hi == ShiftRight(x, 252)
-             pr == FoldL(Mul(hi, LC))          \* hi*2^252 == -(hi*c)
-         IN  <<Add(lo, pr[2]), pr[1]>>
+    ELSE FoldL1(LowBits(x, 252), FoldL(Mul(ShiftRight(x, 252), LC)))     \* hi*2^252 == -(hi*c)
 
 RECURSIVE SubWhileGe(_, _)
 SubWhileGe(x, m) == IF Le(m, x) THEN SubWhileGe(Sub(x, m), m) ELSE x
 
-ModL(x) ==
-    LET pr == FoldL(x)
-        \* pos, neg < 8 * 2^252 each, so pos + 8L - neg is positive
-    IN  SubWhileGe(Sub(Add(pr[1], MulSmall(L, 8)), pr[2]), L)
+L8 == MulSmall(L, 8)
+\* pos, neg < 8 * 2^252 each, so pos + 8L - neg is positive
+ModL1(pr) == SubWhileGe(Sub(Add(pr[1], L8), pr[2]), L)
+ModL(x) == ModL1(FoldL(x))
 
 AddL(a, b) == ModL(Add(a, b))
 MulL(a, b) == ModL(Mul(a, b))
-NegL(a)    == LET r == ModL(a) IN IF IsZero(r) THEN Zero ELSE Sub(L, r)
+NegL1(r)   == IF IsZero(r) THEN Zero ELSE Sub(L, r)
+NegL(a)    == NegL1(ModL(a))
 SubL(a, b) == AddL(a, NegL(b))
 EqL(a, b)  == Eq(ModL(a), ModL(b))
 IsCanonL(a) == Lt(a, L)
